@@ -30,7 +30,7 @@ structure FState where
   cw : BitVec 16
 
 /-- replace the low 32 bits -/
-def setLow32 (x : BitVec 64) (v : BitVec 32) : BitVec 64 := (x.extractLsb' 32 32 ++ v)
+def setLow32 (x : BitVec 64) (v : BitVec 32) : BitVec 64 := BitVec.ofNat 64 (x.toNat / 4294967296 * 4294967296 + v.toNat)
 
 def FState.xget (s : FState) : String → Option (BitVec 64)
   | "%xmm0" => some s.xmm0
